@@ -173,7 +173,8 @@ def rand_bits(rng, kind):
 
 def tv_wrapper(R, n, seed):
     """translation validation: n seeded inputs through the real function and through the encoding"""
-    rng = random.Random(seed * 7919 + hash(R.op) % 1000)
+    import zlib
+    rng = random.Random(seed * 7919 + zlib.crc32(R.op.encode()) % 1000)
     envs = []
     for i in range(n):
         P = {}
@@ -330,6 +331,7 @@ def wrapper_task(op, prop, tv_n=40):
         first = next(iter(obs.values()))
         first.notes.append(f"translation validation {op}: {tv['agree']}/{tv['inputs']} inputs agree with the native function ({tv['native_ok']} native Ok)")
         if tv['n_disagree']:
+            json.dump(tv['disagreements'], open(f'/verif/.cache/tv_disagreement_{op}.json', 'w'), default=str)
             first.fail(f"encoder/native disagreement on {tv['n_disagree']} inputs: {json.dumps(tv['disagreements'][:1], default=str)[:600]}")
         return list(obs.values())
     return task
